@@ -157,7 +157,8 @@ def paramInt (c : Ctx) (w : Nat) (signed mand : Bool) : Ctx × Bool × Int :=
   if !ok then (c, false, 0)
   else if isNumber t false then
     let (r, v) := paramToInt c t w signed
-    (c, r, if r then v else 0)
+    -- nothing could be converted (e.g. ".5"): not an integer
+    if r then (c, true, v) else (pushError c (-104) none, false, 0)
   else if isNumber t true then (pushError c (-138) none, false, 0)
   else (pushError c (-104) none, false, 0)
 
@@ -374,6 +375,7 @@ def processCommand (c : Ctx) : Ctx × Bool :=
     | none => (c, true)
   -- this unit has responded: following units are separated by ';'
   let c := if c.out.outputCount > 0 then { c with out := { c.out with firstOutput := false } } else c
+  let c := { c with out := Result.endUnit c.out }        -- ghost bookkeeping only
   -- the handler did not read all parameters
   if c.ppos < c.pbase + c.plen ∧ !c.cmdError then (pushError c (-108) none, false) else (c, result)
 
@@ -392,8 +394,9 @@ def parseLoop : Nat → Ctx → Nat → Nat → Option (Nat × Nat) → Bool →
       else if u.header.len > 0 ∧ u.nParams < 0 then (pushError c (-103) none, prev, false)
       else if u.header.len > 0 then
         let cur := (base + u.header.ptr, u.header.len.toNat)
-        let (buf, cur, _) := Match.composeCompound c.buf prev cur
-        let c := { c with buf := buf }
+        let (buf, cur, okc) := Match.composeCompound c.buf prev cur
+        -- composeCompoundCommand moving the header before the start of the buffer would be an out-of-bounds write
+        let c := { c with buf := buf, oob := c.oob || !okc }
         let prev := some cur
         match findCommand c cur.1 cur.2 with
         | some cmd =>
@@ -411,7 +414,7 @@ def parseLoop : Nat → Ctx → Nat → Nat → Option (Nat × Nat) → Bool →
 
 /-- SCPI_Parse(context, buffer + base, len), in place -/
 def parse (c : Ctx) (base len : Nat) : Ctx × Bool :=
-  let c := { c with out := { c.out with outputCount := 0, firstOutput := true } }
+  let c := { c with out := { c.out with outputCount := 0, firstOutput := true, gCur := [], gItems := [], gUnits := [], gPartial := false } }
   let c := emit c (.parseMsg ((c.buf.drop base).take len))
   let (c, res) := parseLoop (len + 2) c base len none true
   ({ c with out := Result.writeNewLine c.out }, res)
@@ -451,5 +454,8 @@ def input (c : Ctx) (data : Bytes) : Ctx :=
       let c := { c with buf := (poke c.buf c.position data).set (c.position + data.length) 0, position := c.position + data.length }
       let (c, r) := inputLoop (c.position + 2) c 0 true
       emit c (.input r)
+
+/-- well-formed context: the buffer object has its declared length and the write position is inside -/
+def WF (c : Ctx) : Prop := c.buf.length = c.bufLen ∧ c.position < c.bufLen ∧ c.oob = false
 
 end ScpiVerif.Ctx
